@@ -101,7 +101,26 @@ def consecutive_sweeps():
     return None, None
 
 
+def single_combination():
+    """a grid with one combination, results that are themselves tuples, with and without shuffle / flat"""
+    def f(a, b):
+        return (a + b, f"{a}-{b}")
+    for combos in ({"a": [7], "b": [30]}, (("a", [7]),)):
+        for opts in ({}, {"shuffle": True}, {"shuffle": 3, "flat": True}, {"flat": True}):
+            kw = {} if "b" in dict(combos) else {"constants": {"b": 30}}
+            with quiet():
+                got = xyz.combo_runner(f, combos, verbosity=0, **kw, **opts)
+            cell = (37, "7-30")
+            want = (cell,) if (opts.get("flat") or "b" not in dict(combos)) else ((cell,),)
+            if got != want:
+                return [f"grid {dict(combos)} {opts}: result {got!r}, expected {want!r}"], dict(combos=dict(combos), options=opts)
+    return None, None
+
+
 POOL = [1, 2.5, "x", 7, "y", 0.5, 3, "z", 11, 4.25]
+pr, inp = single_combination()
+if pr:
+    finish(True, input=inp, observed=pr, tried=1)
 tried = 1
 pr, inp = consecutive_sweeps()
 if pr:
